@@ -1226,3 +1226,73 @@ def if_chain(F):
         r.violate("%s | ill-nested for %d flagged bodies" % (rb["path"], worst[0]), F.loc(rb),
                   "with %d flag-guarded bodies for one block end resolve_bodies emits %s: %s — the instrumented function does not validate" % (worst[0], " ".join(worst[2]), worst[1]))
     return r
+
+
+def export_kind_tests(F):
+    """R-EXPORT-KIND: an export's `index` is an index into the space its `kind` names.  Wherever ModuleExports relates an
+    export to a function id — comparing `exp.index` with a FunctionID, or wrapping `exp.index` as a FunctionID — the same
+    predicate / branch also establishes `exp.kind` is Func (an export of memory 0 is not "the export of function 0")."""
+    from vlib.facts import guard_conditions, path_to
+    r = RuleResult("R-EXPORT-KIND",
+                   "in ModuleExports every comparison of an export's index with a function id, and every FunctionID built from an export's index, sits under a test that the export's kind is Func")
+    n = 0
+    for fn in F.fns:
+        if fn.get("body") is None or not (fn.get("self_adt") or "").endswith("ModuleExports"):
+            continue
+        for x in walk(fn["body"]):
+            site = None
+            if x.get("k") == "Binary" and x.get("op") in ("==", "!="):
+                sides = [x["a"], x["b"]]
+                for i_ in (0, 1):
+                    a_ = peel(sides[i_])
+                    if a_.get("k") == "Field" and a_["name"] == "index" and "Export" in (a_.get("base_ty") or "") \
+                            and any("FunctionID" in (y.get("ty") or "") for y in walk(sides[1 - i_])):
+                        site = (x, a_)
+            if x.get("k") == "Call" and (x.get("fres") or {}).get("adt", "").endswith("FunctionID") and x.get("args"):
+                a_ = peel(x["args"][0])
+                if a_.get("k") == "Field" and a_["name"] == "index" and "Export" in (a_.get("base_ty") or ""):
+                    site = (x, a_)
+            if site is None:
+                continue
+            n += 1
+            node, fld = site
+            exp_pp = place_path(fld["base"]) or ""
+
+            def is_kind_func(c):
+                for y in walk(c):
+                    if y.get("k") == "Field" and y["name"] == "kind" and (place_path(y["base"]) or "") == exp_pp:
+                        return any(z.get("k") in ("Path", "Struct", "TupleStruct") and ((z.get("res") or {}).get("variant") == "Func" or z.get("variant") == "Func") for z in walk(c))
+                return False
+            ok = False
+            # same conjunction
+            for anc, _role in reversed(path_to(fn["body"], node) or []):
+                if isinstance(anc, dict) and anc.get("k") == "Binary" and anc.get("op") == "&&" and is_kind_func(anc):
+                    ok = True
+            for pol, cd in guard_conditions(fn["body"], node):
+                if pol is True and is_kind_func(cd):
+                    ok = True
+                if pol == "pat" and any((y.get("variant") == "Func") for y in walk(cd[0])) and "kind" in (place_path(cd[1]) or ""):
+                    ok = True
+            if not ok:
+                # iterator chains: `.find(|e| matches!(e.kind, Func) && ..).map(|e| FunctionID(e.index))` — the element reaching
+                # the closure the site is in has passed an earlier adapter that tests its kind
+                for anc, _role in (path_to(fn["body"], node) or []):
+                    if isinstance(anc, dict) and anc.get("k") == "MethodCall" and any(peel(a2).get("k") == "Closure" and any(y is node for y in walk(a2)) for a2 in anc.get("args", [])):
+                        rc = anc["recv"]
+                        while isinstance(rc, dict) and peel(rc).get("k") == "MethodCall":
+                            rc = peel(rc)
+                            if rc["method"] in ("find", "filter", "position", "take_while", "skip_while", "find_map", "filter_map") and rc.get("args") and peel(rc["args"][0]).get("k") == "Closure":
+                                cb = peel(rc["args"][0])["body"]
+                                if any(y.get("k") == "Field" and y["name"] == "kind" for y in walk(cb)) and \
+                                        any(((z.get("res") or {}).get("variant") == "Func" or z.get("variant") == "Func") for z in walk(cb)) and \
+                                        not any(z.get("k") == "Binary" and z.get("op") == "||" for z in walk(cb)):
+                                    ok = True
+                            rc = rc["recv"]
+            r.ob(ok, {"fn": fn["path"], "relates export index to a function id under kind == Func": ok})
+            if fn["path"] not in r.analysed:
+                r.analysed.append(fn["path"])
+            if not ok:
+                r.violate("%s | index without kind" % fn["path"], F.loc(fn, node),
+                          "%s relates an export's index to a function id without establishing that the export is a function export: an export of memory/global/table N is taken for the export of function N" % fn["name"])
+    r.count("index_function_relations", n)
+    return r
